@@ -4,9 +4,9 @@ from vlib import core
 
 PROP = "C02"
 META = {
-    "technique": "Coq proof: counting invariant (free count + held + in-flight = capacity) by induction over ALL schedules of the access-granular free-list model; refutation of the quiescent-chain clause by a computed ABA schedule; tie: generated offsets/flags/retry bound + real instrumented pop/push/recycleBuffers under a controlled scheduler compared access by access with the model",
-    "level_text": "C02_count_bound and C02_count_exact_at_rest are proved for every list size, any number of threads, all programs of alloc/free/update and every schedule; the clause 'at quiescence the chain visits every slot once' is refuted (C02_refuted, ABA in bufferList.pop, known finding) and is checked on the real code by the quiescence oracle on every explored schedule.",
-    "level_note": "Trusted: coqc kernel; sequential consistency; go/verisched instrumenter + scheduler; schedules sampled plus corpus; recycle-chain operations are covered by the correspondence and the oracles, not by the counting theorem.",
+    "technique": "Coq proof: counting invariant (free count + held + in-flight = capacity) by induction over ALL schedules of the access-granular free-list model; structural invariant (quiescent chain whole, no slot lost, exact size accounting) for every schedule without a stale head-CAS; sequential refinement (never the last slot, a failed allocation restores everything); refutation of the unrestricted quiescence clause by a computed ABA schedule. Tie: G + S (real instrumented pop/push/recycleBuffers, trace comparison) + D (multi-class manager)",
+    "level_text": "C02_count_bound and C02_count_exact_at_rest are proved for every list size, any number of threads, all programs of alloc/free/update and EVERY schedule (ABA or not); C02_partial_aba_free* prove the quiescent-chain, no-slot-lost and size-accounting clauses for every schedule without a stale head-CAS, C02_single_allocator without that hypothesis for one allocating thread; C02_sequential_never_last / _failed_alloc for sequential use. The unrestricted quiescence clause is REFUTED (C02_refuted, ABA in bufferList.pop, known finding, replayed on the real code every run). Quiescence / counting / chain-completeness oracles run on every explored schedule of the real code, incl. the retry-bound path and mappings that end exactly behind the last slot.",
+    "level_note": "Trusted: coqc kernel; sequential consistency; go/verisched instrumenter + scheduler; schedules sampled plus corpus; recycle-chain operations are covered by the correspondence and the oracles, not by the concurrent theorems.",
 }
 
 
